@@ -473,10 +473,11 @@ func TestVerifC35(t *testing.T) {
 			{"full<=3", []int{4}, c35Histories(full, 0, 3), 0},
 			{"full<=2", []int{2}, c35Histories(full, 0, 2), 1},
 			{"twoOk+any/4", []int{4}, twoOkFor(4), 2},
-			{"twoOk+any/2", []int{2}, twoOkFor(2), 2},
-			{"reduced=3", []int{4}, c35Histories(reduced, 3, 3), 2},
-			{"small<=3", []int{4}, c35Histories(small, 1, 3), 3},
-			{"reduced=4", []int{4}, c35Histories(reduced, 4, 4), 1},
+			{"twoOk+any/2", []int{2}, twoOkFor(2), 1},
+			{"oks=3", []int{4}, c35Histories(small[:4], 3, 3), 3},
+			{"small<=3", []int{4}, c35Histories(small, 1, 3), 2},
+			{"reduced=3", []int{4}, c35Histories(reduced, 3, 3), 1},
+			{"small=4", []int{4}, c35Histories(small, 4, 4), 1},
 			{"small=5", []int{4}, c35Histories(small, 5, 5), 0},
 		}
 	} else {
